@@ -151,6 +151,7 @@ pub fn run(out_dir: &str, tier: &str, seed: u64, only: Option<String>, oracle_n:
     let full = tier == "thorough";
     let cfgs: Vec<Config> = configs::all(full || only.is_some())
         .into_iter()
+        .chain(configs::literal())
         .filter(|c| match &only {
             Some(o) => &c.name == o,
             None => full || c.core,
